@@ -259,9 +259,9 @@ func c05Run(c *core.Ctx) {
 	}()
 	ins := c05Inputs(c)
 	c.Info("inputs", fmt.Sprint(len(ins)))
-	maxBound := 2
+	maxBound := 3
 	if c.Thorough() {
-		maxBound = 3
+		maxBound = 4
 	}
 	c.Info("deviation_bound_long_inputs", fmt.Sprint(maxBound))
 	cs := &core.Case{Kind: "c05"}
